@@ -3,6 +3,7 @@
 //! implementation's observations in the format the model prints.
 mod prng;
 mod props;
+mod rawdump;
 mod util;
 
 fn main() {
@@ -18,11 +19,12 @@ fn main() {
 	let code = match args[1].as_str() {
 		"c19" => props::c19::main(&args[2..]),
 		"c17" => props::c17::main(&args[2..]),
+		"c04t" => props::c04t::main(&args[2..]),
 		"c10" => props::c10::main(&args[2..]),
 		"c06" => props::c06::main(&args[2..]),
 		"c20" => props::c20::main(&args[2..]),
 		"c09e" => props::c09e::main(&args[2..]),
-		"c01" | "c03" | "c07" | "c08" | "c09" | "c09rc" | "hist" => props::hist::main(&args[2..], args[1].as_str()),
+		"c01" | "c03" | "c04" | "c07" | "c08" | "c09" | "c09rc" | "hist" => props::hist::main(&args[2..], args[1].as_str()),
 		other => {
 			eprintln!("unknown subcommand {other}");
 			2
